@@ -18,7 +18,8 @@ def run(sid, units=None):
     d = os.path.join(VERIF, "seeded", sid)
     meta = json.load(open(os.path.join(d, "meta.json")))
     props = meta["property"] if isinstance(meta["property"], list) else [meta["property"]]
-    st = sh("git -C %s status --porcelain --untracked-files=no" % REPO).stdout.decode().strip()
+    # only the files the patch touches must be clean (builder agents may be preparing a fix elsewhere)
+    st = sh("git -C %s status --porcelain --untracked-files=no -- %s" % (REPO, " ".join(meta.get("files", ["."])))).stdout.decode().strip()
     if st:
         print("refusing: /repo has uncommitted changes:\n" + st); return 2
     r = sh("git -C %s apply %s" % (REPO, os.path.join(d, "patch.diff")))
@@ -37,7 +38,7 @@ def run(sid, units=None):
                                     "lines": viol[:12], "tail": out.splitlines()[-3:]})
                 print(c, "-> exit", o.returncode, viol[:3])
     finally:
-        sh("git -C %s checkout -- ." % REPO)
+        sh("git -C %s apply -R %s" % (REPO, os.path.join(d, "patch.diff")))
     res["caught"] = any(r["exit"] == 1 for r in res["runs"])
     res["caught_by"] = sorted({l.split(":")[0].replace("FAILED OBLIGATION ", "") + ":" + l.split(":")[1].split(" --")[0]
                                for r in res["runs"] for l in r["lines"] if l.startswith("FAILED OBLIGATION")})
